@@ -23,6 +23,7 @@ type Recorder struct {
 	Samples     []any                `json:"samples"`
 	Tests       map[string]*TestStat `json:"tests"`
 	Notes       []string             `json:"notes"`
+	Counters    map[string]int64     `json:"counters"`
 	sampleSeen  int64
 }
 
@@ -132,6 +133,17 @@ func (r *Recorder) setExhaustive(test string, cases int) {
 	if ts := r.Tests[test]; ts != nil {
 		ts.Exhaustive = true
 	}
+}
+
+// AddCount adds to a named counter reported in the evidence.
+func AddCount(id, name string, n int64) {
+	r := recorderFor(id)
+	r.mu.Lock()
+	if r.Counters == nil {
+		r.Counters = map[string]int64{}
+	}
+	r.Counters[name] += n
+	r.mu.Unlock()
 }
 
 // AddNote adds a free-text note to the evidence.
